@@ -76,7 +76,10 @@ def build(fb=None):
         c.inputs["n_params"] = g.params.length()
 
     def same_gate_but_params(r, g):
-        return (type(r) is type(g)) and r.name is g.name and r.matrix_factory is g.matrix_factory and r.num_qubits is g.num_qubits and r.is_hermitian is g.is_hermitian
+        """same class and EQUAL name / matrix factory / width / hermitian flag (equality, not object identity: a rebuilt but equal attribute is the same gate)"""
+        if type(r) is not type(g) or r.name != g.name:
+            return False
+        return vrt.And(r.matrix_factory == g.matrix_factory, r.num_qubits == g.num_qubits, r.is_hermitian == g.is_hermitian)
 
     c_bind = vc.Contract(key=G + ":MatrixFactoryGate.bind", params={"self": "Any", "symbols_map": "Obj:Map"},
                          ensures="SAME_BUT_PARAMS(result, self) and len(result.params) == len(self.params) and "
@@ -86,7 +89,7 @@ def build(fb=None):
     obs.append(vprop.fn_ob("C06", c_bind, {}, call=lambda ns, a: a["self"].bind(a["symbols_map"]), setup=setup_mfg, fallback=fb, obid="C06.MatrixFactoryGate.bind.contract", desc=c_bind.doc,
                            extra_stubs=lambda: {"sub_symbols": lambda p, m: SObj("Param", SUB(sym.lift(p), sym.lift(m)))}))
     c_repl = vc.Contract(key=G + ":MatrixFactoryGate.replace_params", params={"self": "Any", "new_params": "Tup[Obj:Param]"},
-                         ensures="SAME_BUT_PARAMS(result, self) and result.params is new_params", spec={"SAME_BUT_PARAMS": same_gate_but_params},
+                         ensures="SAME_BUT_PARAMS(result, self) and len(result.params) == len(new_params) and all(result.params[i] == new_params[i] for i in range(len(new_params)))", spec={"SAME_BUT_PARAMS": same_gate_but_params},
                          doc="same gate with the given parameter tuple")
     obs.append(vprop.fn_ob("C06", c_repl, {}, call=lambda ns, a: a["self"].replace_params(a["new_params"]), setup=setup_mfg, fallback=fb, obid="C06.MatrixFactoryGate.replace_params.contract",
                            desc=c_repl.doc))
@@ -143,7 +146,8 @@ def build(fb=None):
         c = sym.cur()
         args["self"] = _real_instance(ns, "GateOperation", gate=SObj("AGate", c.fresh("gate", Obj)), qubit_indices=vtypes.mk("Tup[Int]", "qubit_indices"))
     c = vc.Contract(key=G + ":GateOperation.bind", params={"self": "Any", "symbols_map": "Obj:Map"},
-                    ensures="type(result) is type(self) and result.gate == BIND(self.gate, symbols_map) and result.qubit_indices is self.qubit_indices", spec=specs,
+                    ensures="type(result) is type(self) and result.gate == BIND(self.gate, symbols_map) and len(result.qubit_indices) == len(self.qubit_indices) and "
+                            "all(result.qubit_indices[i] == self.qubit_indices[i] for i in range(len(self.qubit_indices)))", spec=specs,
                     doc="GateOperation.bind: the bound gate on the SAME qubit tuple")
     obs.append(vprop.fn_ob("C06", c, {}, call=lambda ns, a: a["self"].bind(a["symbols_map"]), setup=setup_op, fallback=fb, obid="C06.GateOperation.bind.contract", desc=c.doc))
     c = vc.Contract(key=G + ":GateOperation.free_symbols", params={"self": "Any"}, ensures="result == self.gate.free_symbols", doc="an operation's free symbols are its gate's")
